@@ -5,6 +5,7 @@ CONSTANTS
   ExpI = {"match", "diff", "empty", "off"}
   ExpR = {"match", "diff", "empty", "off"}
   Pros = {"none", "eq", "diff", "one"}
+  Warm = {FALSE, TRUE}
   TMaxMut = 2
   SAddrs = 3
 INIT InitN
